@@ -130,7 +130,13 @@ CHECKS["C15"] = dict(
                 "hold/release/pass-through for all histories of WriteLevel/Trigger/Close up to length 5 (quick) / 6 (thorough) over an 8-level alphabet, "
                 "all 64 (Conditional, Trigger) pairs on all length-3 histories, random histories over all levels except 10; concurrent runs are checked "
                 "with porcupine against the same model (each operation's output = the lines the destination received during that call) plus exactly-once "
-                "/ unaltered / level-preserved invariants, also under the race detector."),
+                "/ unaltered / level-preserved invariants, a real-time order rule on the destination sequence (a line whose write had returned before another "
+                "write was called may only come later if it is holdable and the other is not), conservation of the held lines where the history "
+                "allows a verdict (released and never closed: each exactly once; never released: none), and the (n, err) results; half of the concurrent "
+                "runs use a destination that yields or sleeps between deliveries; callers overwrite their buffer as soon as a call returns; bodies "
+                "reach beyond the pooled 1 KiB buffer and the 64 KiB reuse limit; short-lived TriggerLevelWriters are created, filled, released or "
+                "closed next to every concurrent run so that the shared buffer pool changes hands (no line may cross over); also under the race "
+                "detector."),
     technique="runtime monitoring: trigger-buffer reference model, porcupine linearizability of concurrent histories, race detector",
     stages=lambda tier: [dict(variant="vh", cmd="c15", shards=16, timeout=3000),
                          dict(variant="vh", cmd="c15-conc", shards=4, timeout=3000),
